@@ -724,6 +724,19 @@ class CallMixin(object):
     def bi_allocated(self, args, kwargs, st, node):
         return mk_bool(z3.And(args[0].t != null, self.allocated(st, args[0].t)))
 
+    def bi_map_set(self, args, kwargs, st, node):
+        return self.map_store(args[0], args[1], args[2], st)
+
+    def bi_map_del(self, args, kwargs, st, node):
+        m, k = args[0], coerce(args[1], args[0].sort.k)
+        return SV(m.sort, {'dom': z3.Store(m.c['dom'], k.t, z3.BoolVal(False)), 'val': m.c['val'], 'keys': m.c['keys']})
+
+    def bi_same(self, args, kwargs, st, node):
+        """same(a, b): identical in every component (for dicts: including insertion order)"""
+        a, b = args
+        b = coerce(b, a.sort)
+        return mk_bool(z3.And([a.c[k] == b.c[k] for k in a.c]) if a.c else z3.BoolVal(True))
+
     def bi_is_none(self, args, kwargs, st, node):
         return mk_bool(py_eq(args[0], NONE_V))
 
